@@ -13,10 +13,11 @@ APIS = ("scgi", "fastcgi", "http")
 
 
 class Case:
-    __slots__ = ("api", "mode", "segs", "absreq", "tag", "out", "d", "impl", "hints", "model", "mflags", "mline", "reads", "hp")
+    __slots__ = ("api", "mode", "segs", "absreq", "tag", "out", "d", "impl", "hints", "model", "mflags", "mline", "reads", "hp", "nreq")
 
-    def __init__(self, api, mode, segs, absreq=None, tag=""):
+    def __init__(self, api, mode, segs, absreq=None, tag="", nreq=None):
         self.api, self.mode, self.segs, self.absreq, self.tag = api, mode, [s for s in segs if s], absreq, tag
+        self.nreq = nreq
         self.out = self.d = self.impl = self.model = self.mline = None
         self.hints, self.mflags, self.reads, self.hp = "", set(), [], None
 
@@ -36,10 +37,13 @@ def load_corpus(root, prop):
     d = os.path.join(root, "gen", "corpus", prop)
     if os.path.isdir(d):
         for f in sorted(os.listdir(d)):
+            nreq = None
             for l in open(os.path.join(d, f)):
+                if l.startswith("expect nreq="):
+                    nreq = int(l.split("=")[1])
                 if l.startswith("case "):
                     w = l.split()
-                    cases.append(Case(w[1], w[2], [bytes.fromhex(x) for x in w[3:] if x != "-"], tag="corpus:" + f))
+                    cases.append(Case(w[1], w[2], [bytes.fromhex(x) for x in w[3:] if x != "-"], tag="corpus:" + f, nreq=nreq))
     return cases
 
 
